@@ -15,6 +15,8 @@ import (
 	"k8s.io/utils/ptr"
 
 	schedulingv1alpha2 "github.com/NVIDIA/KAI-scheduler/pkg/apis/scheduling/v1alpha2"
+	featuregates "github.com/NVIDIA/KAI-scheduler/pkg/common/feature_gates"
+	"github.com/NVIDIA/KAI-scheduler/pkg/scheduler/api/pod_info"
 	"github.com/NVIDIA/KAI-scheduler/pkg/scheduler/framework"
 
 	"verif/harness/internal/c11"
@@ -22,6 +24,7 @@ import (
 	"verif/harness/internal/sched"
 	"verif/harness/internal/spec"
 	"verif/harness/internal/store"
+	"verif/harness/internal/world"
 )
 
 var (
@@ -44,6 +47,8 @@ type brView struct {
 	Failed  int32    `json:"failedAttempts"`
 	Reason  string   `json:"reason,omitempty"`
 	RV      string   `json:"resourceVersion,omitempty"`
+	// Claims: spec.resourceClaimAllocations (pod claim name -> sorted driver/pool/device ids)
+	Claims map[string][]string `json:"claimAllocations,omitempty"`
 }
 
 // terminal is the harness' statement of "terminally failed": phase Failed and (no backoffLimit, or failedAttempts
@@ -57,9 +62,16 @@ func viewOf(br *schedulingv1alpha2.BindRequest) *brView {
 	if len(r) > 160 {
 		r = r[:160] + "..."
 	}
-	return &brView{Key: br.Namespace + "/" + br.Name, UID: string(br.UID), Pod: br.Spec.PodName, Node: br.Spec.SelectedNode,
+	v := &brView{Key: br.Namespace + "/" + br.Name, UID: string(br.UID), Pod: br.Spec.PodName, Node: br.Spec.SelectedNode,
 		Groups: append([]string(nil), br.Spec.SelectedGPUGroups...), Backoff: br.Spec.BackoffLimit, Phase: br.Status.Phase,
 		Failed: br.Status.FailedAttempts, Reason: r, RV: br.ResourceVersion}
+	for _, ra := range br.Spec.ResourceClaimAllocations { // DRA
+		if v.Claims == nil {
+			v.Claims = map[string][]string{}
+		}
+		v.Claims[ra.Name] = sched.DeviceIDs(ra.Allocation)
+	}
+	return v
 }
 
 // snapPod is what the scheduler's snapshot of a cycle says about a pod that had a BindRequest at cycle start.
@@ -72,6 +84,10 @@ type snapPod struct {
 	OnNode     bool             `json:"inPodInfosOfThatNode"`
 	GroupUsed  map[string]int64 `json:"usedSharedGPUMemoryOfItsGroups,omitempty"`
 	AcceptedGP float64          `json:"acceptedGPUs,omitempty"`
+	// DRA: per pod claim the devices the pod's PodInfo carries, and for each of those devices whether the DRA
+	// manager's allocated-device set (what the allocator is told is taken) holds it at session open
+	ClaimDevs map[string][]string `json:"claimDevices,omitempty"`
+	DevTaken  map[string]bool     `json:"claimedDeviceInAllocatedSet,omitempty"`
 }
 
 type snapNode struct {
@@ -205,6 +221,14 @@ func newDriver(c *spec.Case, pl *Plan) (*driver, error) {
 		br.Spec.BackoffLimit = d.backoffFor(br)
 		return false, nil, nil
 	})
+	// DRA: the binder decides which plugins it builds from the DynamicResourceAllocation gate at start-up, the
+	// scheduler sets the gate from API discovery whenever it builds a cache: both see the same API server
+	if c.Objects.HasDRA() {
+		d.st.EnableDRA()
+		d.counters["dra_cases"]++
+		d.counters["dra_claims_generated"] += len(c.Objects.ResourceClaims)
+	}
+	_ = featuregates.SetDRAFeatureGate(d.st.Kube.Discovery())
 	var err error
 	if d.b, err = c11.NewBinderOn(d.st, pl.Cdi); err != nil {
 		return nil, err
@@ -254,6 +278,31 @@ func (d *driver) observe(ssn *framework.Session) {
 		status, node, onNode string
 		groups               []string
 		acc                  float64
+		claims               map[string][]string
+	}
+	taken := map[string]bool{}
+	if d.c.Objects.HasDRA() {
+		if pl := ssn.InternalK8sPlugins(); pl != nil && pl.FrameworkHandle != nil {
+			if mgr := pl.FrameworkHandle.SharedDRAManager(); mgr != nil {
+				if st, err := mgr.ResourceClaims().GatherAllocatedState(); err == nil && st != nil {
+					for id := range st.AllocatedDevices {
+						taken[id.String()] = true
+					}
+				}
+			}
+		}
+	}
+	claimsOf := func(t *pod_info.PodInfo) map[string][]string {
+		if len(t.ResourceClaimInfo) == 0 {
+			return nil
+		}
+		out := map[string][]string{}
+		for name, info := range t.ResourceClaimInfo {
+			if info != nil {
+				out[name] = sched.DeviceIDs(info.Allocation)
+			}
+		}
+		return out
 	}
 	found := map[string]*loc{}
 	note := func(ns, name, status, node string, groups []string, acc float64) *loc {
@@ -274,7 +323,9 @@ func (d *driver) observe(ssn *framework.Session) {
 			if t.AcceptedResource != nil {
 				acc = t.AcceptedResource.GPUs()
 			}
-			note(t.Namespace, t.Name, t.Status.String(), t.NodeName, t.GPUGroups, acc)
+			if l := note(t.Namespace, t.Name, t.Status.String(), t.NodeName, t.GPUGroups, acc); l != nil && l.claims == nil {
+				l.claims = claimsOf(t)
+			}
 		}
 	}
 	for nn, ni := range ci.Nodes {
@@ -293,6 +344,14 @@ func (d *driver) observe(ssn *framework.Session) {
 		if l, ok := found[k]; ok {
 			sp.Found, sp.Status, sp.Node, sp.Groups, sp.AcceptedGP = true, l.status, l.node, l.groups, l.acc
 			sp.OnNode = l.onNode != "" && l.onNode == l.node
+			if len(l.claims) > 0 {
+				sp.ClaimDevs, sp.DevTaken = l.claims, map[string]bool{}
+				for _, devs := range l.claims {
+					for _, dev := range devs {
+						sp.DevTaken[dev] = taken[dev]
+					}
+				}
+			}
 			if ni, ok := ci.Nodes[l.node]; ok && len(l.groups) > 0 {
 				sp.GroupUsed = map[string]int64{}
 				for _, g := range l.groups {
@@ -462,6 +521,12 @@ func (d *driver) kubelet() {
 		notes = append(notes, "gc request "+br.Namespace+"/"+br.Name+" (pod gone)")
 		d.requestDeleted(br, "owner-gc")
 	}
+	// DRA: resource claim controller + garbage collector (consumers that are gone leave reservedFor, a claim nobody
+	// reserves is deallocated)
+	if logs, writes := world.ReconcileClaims(d.st); writes > 0 || len(logs) > 0 {
+		notes = append(notes, logs...)
+		d.counters["dra_claim_controller_writes"] += writes
+	}
 	if len(notes) > 0 {
 		d.add(&step{Kind: "kubelet", Note: strings.Join(notes, "; ")})
 	}
@@ -630,7 +695,7 @@ func (d *driver) planFor(inc *incarnation, br *schedulingv1alpha2.BindRequest) (
 		}
 		f.stage = 1
 		k := 2 + d.rng.IntN(bi-1) // any call of the attempt up to and including the binding call
-		inc.delayedGap = 1          // the scheduler runs before a new binder process looks at the request again
+		inc.delayedGap = 1        // the scheduler runs before a new binder process looks at the request again
 		return c11.Plan{CrashAt: k}, fmt.Sprintf("binder dies at call %d/%d (%s) in the middle of the attempt; a scheduler cycle runs before the new binder retries", k, len(calls), calls[k-1].Kind), true
 	case "failed-not-recorded":
 		calls := dry()
